@@ -59,6 +59,20 @@ theorem foldl_ttUpdate_nonInc (ht : LtTrans α) (p : Par2 α) (slow : Grid2 α) 
     intro i j
     exact NonInc.trans ht (ih (ttUpdate p slow tt x) i j) (ttUpdate_nonInc ht p slow tt x i j)
 
+/-- a sweep (any sequence of node updates) preserves the shape of the grid -/
+theorem foldl_ttUpdate_shape (p : Par2 α) (slow : Grid2 α) (l : List (Nat × Nat × Dir2)) (tt : Grid2 α) :
+    (l.foldl (ttUpdate p slow) tt).size = tt.size
+      ∧ ∀ k, ((l.foldl (ttUpdate p slow) tt).getD k #[]).size = (tt.getD k #[]).size := by
+  induction l generalizing tt with
+  | nil => exact ⟨rfl, fun _ => rfl⟩
+  | cons x xs ih =>
+    simp only [List.foldl_cons]
+    obtain ⟨h1, h2⟩ := ih (ttUpdate p slow tt x)
+    have e1 : (ttUpdate p slow tt x).size = tt.size := by unfold ttUpdate; rw [Grid2.size_set]
+    have e2 : ∀ k, ((ttUpdate p slow tt x).getD k #[]).size = (tt.getD k #[]).size := by
+      intro k; unfold ttUpdate; rw [Grid2.row_set]
+    exact ⟨by rw [h1, e1], fun k => by rw [h2 k, e2 k]⟩
+
 /-- pointwise equality of grids (what the kernels can observe) -/
 def Grid2.Same (g g' : Grid2 α) : Prop := ∀ i j, g.get zero i j = g'.get zero i j
 
